@@ -118,6 +118,29 @@ class _Spelling(ast.NodeTransformer):
             if pos is not None and len(n.args) == pos + 1:
                 n.keywords = [ast.keyword(arg="axis", value=n.args[pos])] + list(n.keywords)
                 n.args = n.args[:pos]
+        if isinstance(f, ast.Attribute) and f.attr == "expand_dims" and (self._lib(f) or "").endswith(".expand_dims") and not any(isinstance(a, ast.Starred) for a in n.args) and all(k.arg == "axis" for k in n.keywords) \
+                and len(n.args) + len(n.keywords) == 2 and n.args:
+            ax = n.keywords[0].value if n.keywords else n.args[1]
+            if isinstance(ax, ast.Constant) and isinstance(ax.value, int) and not isinstance(ax.value, bool) and 0 <= ax.value <= 4:
+                # expand_dims(x, k) is x[:, .., None] with k full slices in front
+                idx = [ast.Slice(lower=None, upper=None, step=None) for _ in range(ax.value)] + [ast.Constant(value=None)]
+                return ast.copy_location(ast.Subscript(value=n.args[0], slice=idx[0] if len(idx) == 1 else ast.Tuple(elts=idx, ctx=ast.Load()), ctx=ast.Load()), n)
+        return n
+
+    def visit_Assign(self, n):
+        """`a, b, *rest = x` for a side-effect-free x (a name / attribute chain) -> `a = x[0]; b = x[1]; rest = x[2:]` (the same entries; `rest` is a
+        list of them where the slice is a tuple - as a shape / sequence of entries the same)."""
+        self.generic_visit(n)
+        t = n.targets[0] if len(n.targets) == 1 else None
+        chain = n.value
+        while isinstance(chain, ast.Attribute):
+            chain = chain.value
+        if isinstance(t, (ast.Tuple, ast.List)) and len(t.elts) >= 2 and isinstance(t.elts[-1], ast.Starred) and isinstance(t.elts[-1].value, ast.Name) and all(isinstance(x, ast.Name) for x in t.elts[:-1]) \
+                and isinstance(chain, ast.Name) and chain.id not in {x.id for x in t.elts[:-1]} | {t.elts[-1].value.id}:
+            from ..expand import clone
+            out = [ast.Assign(targets=[x], value=ast.Subscript(value=clone(n.value), slice=ast.Constant(value=i), ctx=ast.Load()), type_comment=None) for i, x in enumerate(t.elts[:-1])]
+            out.append(ast.Assign(targets=[t.elts[-1].value], value=ast.Subscript(value=clone(n.value), slice=ast.Slice(lower=ast.Constant(value=len(t.elts) - 1), upper=None, step=None), ctx=ast.Load()), type_comment=None))
+            return [ast.fix_missing_locations(ast.copy_location(x, n)) for x in out]
         return n
 
     def visit_Attribute(self, n):
@@ -207,6 +230,35 @@ def _exp_merged(nf, p: Poly, depth: int = 0) -> Poly:
     return out.with_meta(p.deps, p.gdeps)
 
 
+def _mean_of_axis_sum(nf, p: Poly, fn):
+    """mean(sum(X, axis=k)) (mean over everything that is left) == n_k * mean(X), n_k the length of axis k of X: written with the name the
+    docstring gives that axis when every documented array X is built from has the same rank and the same name there (the operands are combined
+    entry by entry).  Returns (normal form, names used).  Anything else is left as it is."""
+    docs = doc_shapes(fn)
+    m, used = {}, set()
+    for a in p.atoms():
+        ma = nf.meta.get(a, {})
+        if ma.get("fn", "").split(".")[-1] != "mean" or len(ma.get("args", [])) != 1 or ma.get("kws"):
+            continue
+        mi_ = nf.meta.get(ma["args"][0].single_atom() or "", {})
+        if mi_.get("fn", "").split(".")[-1] != "sum" or len(mi_.get("args", [])) != 1 or set(mi_.get("kws", {})) != {"axis"}:
+            continue
+        k = mi_["kws"]["axis"].const_value()
+        X = mi_["args"][0]
+        deps = set(X.deps)
+        if k is None or k != int(k) or not deps or any(d not in docs for d in deps) or len({len(docs[d]) for d in deps}) != 1:
+            continue
+        k = int(k)
+        rank = len(docs[next(iter(deps))])
+        names = {docs[d][k] for d in deps} if -rank <= k < rank else set()
+        if len(names) != 1 or not re.fullmatch(r"[A-Za-z_]\w*", next(iter(names))):
+            continue
+        n = names.pop()
+        used.add(n)
+        m[a] = Poly.atom(n) * nf._libcall("mean", [X], {}, None)
+    return (p.subst(m) if m else p), used
+
+
 def _index_into_clip(nf, p: Poly) -> Poly:
     """clip(x, lo, hi)[i] -> clip(x[i], lo, hi) for constant bounds (clipping is element-wise): one normal form for both orders."""
     m = {}
@@ -284,11 +336,19 @@ def _bounding_function(repo):
     if not c:
         # a helper introduced after the freeze is expanded at its call sites (E9): the bound then stands in place in the methods, its definition is
         # the three-argument helper that was expanded into them
+        meth = {}
         for caller, callee, _mode in getattr(repo, "inlined", []):
             if caller.startswith(ENS + ".") and repo.has(callee):
                 m2, node = repo.lookup(callee)
-                if isinstance(node, ast.FunctionDef) and len(positional_params(node)) == 3 and positional_params(node)[0] not in ("self", "cls"):
+                ps = positional_params(node) if isinstance(node, ast.FunctionDef) else []
+                if len(ps) == 3 and ps[0] not in ("self", "cls"):
                     c[id(node)] = (node, m2)
+                elif len(ps) == 2 and ps[0] in ("self", "cls") and node.args.vararg is None and node.args.kwarg is None and not node.args.kwonlyargs \
+                        and {"min_log_var", "max_log_var"} <= {x.attr for x in ast.walk(node) if isinstance(x, ast.Attribute) and isinstance(x.value, ast.Name) and x.value.id == ps[0] and isinstance(x.ctx, ast.Load)}:
+                    # the bound as a method of the object (or of a base class / mixin): one argument, the two live bounds are read from the object itself
+                    node._c17_owner = callee.rsplit(".", 1)[0]
+                    meth[id(node)] = (node, m2)
+        c = c or meth      # a method that merely hands the object's bounds to a three-argument function is a wrapper of that function
     if len(c) != 1:
         raise AnalysisError(f"{ENS}: {len(c)} three-argument functions are applied to (log-variance, min_log_var, max_log_var) by the prediction methods (unrecognised form)")
     return next(iter(c.values()))
@@ -325,6 +385,27 @@ class _Dist(tuple):
 
 class _Drawn(tuple):
     """Shape of a random sample."""
+
+
+class _Record(tuple):
+    """("tuple", [field values]) of a NamedTuple instance; `fields` holds the field names in declaration order."""
+    fields: tuple = ()
+
+
+def _record_fields(repo, mi, f):
+    """(field names, {field: default expression}) when `f` names a NamedTuple class of the package (fields in declaration order), else None."""
+    if not isinstance(f, (ast.Name, ast.Attribute)):
+        return None
+    r = repo.resolve_expr(mi, f)
+    if not r or not r.startswith(repo.PKG + ".") or not repo.has(r):
+        return None
+    m2, node = repo.lookup(r)
+    if not isinstance(node, ast.ClassDef) or node.keywords or len(node.bases) != 1 or not isinstance(node.bases[0], (ast.Name, ast.Attribute)) or repo.resolve_expr(m2, node.bases[0]) != "typing.NamedTuple":
+        return None
+    if any(isinstance(x, ast.FunctionDef) and x.name in ("__new__", "__getattr__", "__getattribute__") for x in node.body):
+        return None
+    fields = [x for x in node.body if isinstance(x, ast.AnnAssign) and isinstance(x.target, ast.Name)]
+    return [x.target.id for x in fields], {x.target.id: x.value for x in fields if x.value is not None}
 
 
 class _Shapes(ShapeEngine):
@@ -368,6 +449,31 @@ class _Shapes(ShapeEngine):
 
     accept_vector_queries = False
 
+    def assign(self, t, v, env, ctx):
+        if isinstance(t, (ast.Tuple, ast.List)) and sum(isinstance(x, ast.Starred) for x in t.elts) == 1:
+            # a, b, *rest = seq: the starred name takes what the others leave
+            k = next(i for i, x in enumerate(t.elts) if isinstance(x, ast.Starred))
+            after = len(t.elts) - k - 1
+            d = list(v[1]) if isinstance(v, tuple) and len(v) == 2 and v[0] in ("dims", "tuple") and v[1] is not None else None
+            if d is None or len(d) < len(t.elts) - 1:
+                for el in t.elts:
+                    self.assign(el.value if isinstance(el, ast.Starred) else el, None, env, ctx)
+                return
+            one = (lambda x: ("dim", x)) if v[0] == "dims" else (lambda x: x)
+            mid = d[k:len(d) - after]
+            for el, x in list(zip(t.elts[:k], d[:k])) + list(zip(t.elts[k + 1:], d[len(d) - after:])):
+                self.assign(el, one(x), env, ctx)
+            self.assign(t.elts[k].value, ("dims", tuple(mid)) if v[0] == "dims" else ("tuple", mid), env, ctx)
+            return
+        return super().assign(t, v, env, ctx)
+
+    def _ev(self, e, env, ctx):
+        if isinstance(e, ast.Attribute) and isinstance(e.value, ast.Name) and isinstance(env.get(e.value.id), _Record):
+            rec = env[e.value.id]      # field of a NamedTuple carrier: the value it was constructed with
+            if e.attr in rec.fields:
+                return rec[1][rec.fields.index(e.attr)]
+        return super()._ev(e, env, ctx)
+
     def alarm(self, mi, node, kind, text, qual):
         if kind == "rank-mismatch-call" and getattr(self, "_vector_query", 0):
             return None
@@ -380,6 +486,14 @@ class _Shapes(ShapeEngine):
             if isinstance(recv, _Dist):
                 shp = self.broadcast(list(recv[1]), ctx["mi"], e, ctx["qual"])
                 return _Drawn(shp) if shp is not None else None
+        rf = _record_fields(self.repo, ctx["mi"], f) if isinstance(f, ast.Name) and f.id not in env and f.id not in ctx["fnenv"] else None
+        if rf is not None and not any(isinstance(a, ast.Starred) for a in e.args) and all(k.arg is not None for k in e.keywords) and len(e.args) <= len(rf[0]):
+            # a NamedTuple carrier: positional arguments fill the fields in declaration order, keywords by name, defaults otherwise
+            given = {**dict(zip(rf[0], e.args)), **{k.arg: k.value for k in e.keywords}}
+            if set(given) <= set(rf[0]) and len(given) == len(e.args) + len(e.keywords):
+                rec = _Record(("tuple", [self.ev(given[n], env, ctx) if n in given else (self.ev(rf[1][n], {}, ctx) if n in rf[1] else None) for n in rf[0]]))
+                rec.fields = tuple(rf[0])
+                return rec
         vector_query = False
         if self.accept_vector_queries and isinstance(f, ast.Attribute) and isinstance(f.value, ast.Name) and ctx.get("ptypes", {}).get(f.value.id) == ENS and e.args and not isinstance(e.args[0], ast.Starred):
             a0 = self.ev(e.args[0], env, ctx)
@@ -844,10 +958,18 @@ def r2_r3_formulas(ck, repo, nf):
     # soft bounding: the function that the wrappers map (found through the vmaps, not by its name)
     sl, imi = _bounding_function(repo)
     ssite = ENS + ".__init__.<locals>.safe_log_var"
+    owner = getattr(sl, "_c17_owner", None)
     sl = _spelled(ck, repo, sl, imi)
-    e2 = _env(sl)
-    g2, _r2 = _returned(nf, sl, imi, e2, ssite)
-    w2 = _spec(nf, repo, imi, "min_log_var + nnx.softplus(max_log_var - nnx.softplus(max_log_var - log_var) - min_log_var)", _spec_env(sl, ("log_var", "min_log_var", "max_log_var"), ssite))
+    if owner is None:
+        e2 = _env(sl)
+        g2, _r2 = _returned(nf, sl, imi, e2, ssite)
+        w2 = _spec(nf, repo, imi, "min_log_var + nnx.softplus(max_log_var - nnx.softplus(max_log_var - log_var) - min_log_var)", _spec_env(sl, ("log_var", "min_log_var", "max_log_var"), ssite))
+    else:
+        # method form: bound(self, log_var) reads the two bounds from the object - the same formula over self.min_log_var / self.max_log_var
+        ssite = f"{owner}.{sl.name}"
+        e2 = _spec_env(sl, ("log_var",), ssite, skip_self=True)
+        g2, _r2 = _returned(nf, sl, imi, dict(e2), ssite, self_class=owner)
+        w2 = _spec(nf, repo, imi, "self.min_log_var + nnx.softplus(self.max_log_var - nnx.softplus(self.max_log_var - log_var) - self.min_log_var)", e2, owner)
     _decide(ck, "R3-nll", ssite, "soft-bounds", g2, w2, f"{g2.canon()[:150]}", f"must be min + softplus(max - softplus(max - lv) - min): `{w2.canon()}`", loc(imi, sl))
     for attr, lo, hi in (("min_log_var", "-20.0", "0.0"), ("max_log_var", "-4.0", "5.0")):
         p = _spelled(ck, repo, _m(repo, ENS, attr))
@@ -862,7 +984,8 @@ def r2_r3_formulas(ck, repo, nf):
         g, _r = _returned(nf, f, f._module, _env(f), q)
         w = _spec(nf, repo, f._module, text, _spec_env(f, recorded, q))
         g, w = _exp_merged(nf, g), _exp_merged(nf, w)
-        _decide(ck, "R3-nll", q, key, g, w, g.canon()[:150], f"{why}: difference `{(g - w).canon()[:120]}`", loc(f._module, f))
+        g, sizes = _mean_of_axis_sum(nf, g, f)      # a sum over one axis under the overall mean: the element mean times the length of that axis
+        _decide(ck, "R3-nll", q, key, g, w, g.canon()[:150], f"{why}: difference `{(g - w).canon()[:120]}`" + (f" ({', '.join(sorted(sizes))}: documented length of the axis that is summed before the mean is taken)" if sizes else ""), loc(f._module, f), extra=tuple(sizes))
     q = PE + "gaussian_ensemble_loss"
     f = _spelled(ck, repo, repo.func(q))
     nf2 = NF(repo, inline_depth=1, no_inline={PE + "gaussian_nll"})
@@ -978,11 +1101,15 @@ def r4_bootstraps(ck, repo, nf):
         raise AnalysisError(f"{q}: batching of the bootstrap indices `{btxt[:80]}` is not a reshape + transpose this check can read")
     src = rs[1] if rs else next(x.args[0] for e_ in (bv, rs_e) for x in ast.walk(e_) if isinstance(x, ast.Call) and isinstance(x.func, (ast.Name, ast.Attribute)) and (repo.resolve_expr(mi, x.func) or dotted(x.func)).endswith("resize") and x.args)
     # the per-epoch pipeline behind the reshaped matrix: permutation (one per epoch), at most one column truncation, copies through local names
-    shuffles, truncs, matrices, unread, seen = [], [], set(), [], set()
+    shuffles, truncs, matrices, unread, seen, guards_of = [], [], set(), [], set(), {}
 
-    def walk(e, at_, depth=0):
+    def walk(e, at_, depth=0, guards=()):
         if depth > 12:
             unread.append(e)
+        elif isinstance(e, ast.IfExp):
+            # `a if c else b`: the matrix is a when c holds, b otherwise (what is read below either arm runs under that outcome of c)
+            walk(e.body, at_, depth + 1, guards + ((e.test, at_, True),))
+            walk(e.orelse, at_, depth + 1, guards + ((e.test, at_, False),))
         elif isinstance(e, ast.Name):
             ds = cfg.defs_of(at_, e.id)
             matrices.add(e.id)
@@ -991,14 +1118,15 @@ def r4_bootstraps(ck, repo, nf):
             for d in ds:
                 if (d.node, d.name) not in seen and d.kind == "assign" and d.value is not None:
                     seen.add((d.node, d.name))
-                    walk(d.value, d.node, depth + 1)
+                    walk(d.value, d.node, depth + 1, guards)
         elif isinstance(e, ast.Subscript):
             truncs.append((e, at_))
-            walk(e.value, at_, depth + 1)
+            guards_of[id(e)] = guards
+            walk(e.value, at_, depth + 1, guards)
         elif isinstance(e, ast.Call) and isinstance(e.func, (ast.Name, ast.Attribute)) and repo.resolve_expr(mi, e.func) in ("jax.random.permutation", "jax.random.choice", "jax.random.shuffle", "numpy.random.permutation"):
             shuffles.append((e, at_, repo.resolve_expr(mi, e.func)))
         elif isinstance(e, ast.Call) and isinstance(e.func, (ast.Name, ast.Attribute)) and repo.resolve_expr(mi, e.func) in ("jax.numpy.asarray", "jax.numpy.array", "numpy.asarray", "jax.numpy.copy") and len(e.args) == 1 and not e.keywords:
-            walk(e.args[0], at_, depth + 1)
+            walk(e.args[0], at_, depth + 1, guards)
         else:
             unread.append(e)
     walk(src, rs_at)
@@ -1106,6 +1234,7 @@ def r4_bootstraps(ck, repo, nf):
         up = nf.poly(_closed(cfg, el[1].upper, tn, matrices), Scope(None, mi, penv, q), None)
         if up == spec(f"-{r_txt}"):
             tests = [(nf.poly(_closed(cfg, cfg.nodes[b_].ast.test, b_, matrices), Scope(None, mi, penv, q), None).canon(), lab_) for b_, lab_ in cfg.control_deps(tn) if cfg.nodes[b_].kind == "test" and isinstance(cfg.nodes[b_].ast, ast.If)]
+            tests += [(nf.poly(_closed(cfg, t_, n_, matrices), Scope(None, mi, penv, q), None).canon(), lab_) for t_, n_, lab_ in guards_of.get(id(v), ())]      # conditional expressions around the slice
             nonzero = {spec(t.replace("r", r_txt)).canon() for t in ("r", "-r", "r != 0", "-r != 0", "r > 0", "r >= 1", "-r < 0", "-r <= -1", "bool(r)", "bool(-r)")}
             zero = {spec(t.replace("r", r_txt)).canon() for t in ("r == 0", "-r == 0", "not r", "not -r", "r <= 0", "r < 1", "-r >= 0")}
             if any((c_ in nonzero and lab_) or (c_ in zero and not lab_) for c_, lab_ in tests):
@@ -1396,6 +1525,18 @@ MUTANTS = [
     {"id": "c17-plans-sum-over-particles", "file": _P, "rule": "R5", "find": "    returns = rewards.sum(axis=-1)\n", "replace": "    returns = rewards.sum(axis=1)\n"},
     {"id": "c17-plans-actions-not-per-particle", "file": _P, "rule": "R5", "find": "        actions[:, jnp.newaxis],\n", "replace": "        actions[jnp.newaxis],\n"},
     {"id": "c17-aggregate-positional-wrong-axis", "file": _E, "rule": "R2", "find": "        epistemic_var = jnp.var(means, axis=0)", "replace": "        epistemic_var = jnp.var(means, 1)"},
+    # forms read since round 2: the bound as a one-argument method of the object (mixin / base class), a conditional expression around the column
+    # truncation, NamedTuple carriers between helper methods, expand_dims / starred unpacking of shapes
+    {"id": "c17-bound-method-lower-sign", "file": _E, "rule": "R3", "all": True, "edits": [(_ALIAS_I, ""), (_ALIAS_E, ""), ("        # TODO move safe_log_var to nnx.Module\n" + _LOCAL_BOUND, ""),
+                                                                                          ("    def aggregate(self, x: jnp.ndarray)", "    def _clamp(self, raw):\n        lo = self.min_log_var\n        hi = self.max_log_var\n        upper = hi - nnx.softplus(hi - raw)\n        return lo - nnx.softplus(upper - lo)\n\n    def aggregate(self, x: jnp.ndarray)"),
+                                                                                          (_BOUND_CALL_E, "self._clamp(log_vars)"), (_BOUND_CALL_I, "self._clamp(log_var_i)")]},
+    {"id": "c17-conditional-truncation-keeps-remainder", "file": _E, "rule": "R4", "find": "        remaining = -(bootstrap_indices.shape[1] % batch_size)\n        if remaining:\n            shuffled_indices = shuffled_indices[:, :remaining]\n", "replace": "        tail = bootstrap_indices.shape[1] % batch_size\n        shuffled_indices = shuffled_indices[:, :tail] if tail else shuffled_indices\n"},
+    {"id": "c17-record-carrier-bound-vmapped", "file": _E, "rule": "R1-one-variance-per-output", "nth": 0, "edits": [("class GaussianMLPEnsemble(nnx.Module):\n", "class _Pred(NamedTuple):\n    mu: jnp.ndarray\n    lv: jnp.ndarray\n\n\nclass GaussianMLPEnsemble(nnx.Module):\n"),
+                                                                                                             ("    def base_predict(self, x, i):", "    def _predict_member(self, inputs, k):\n        graphdef, state = nnx.split(self.ensemble)\n        net = nnx.merge(graphdef, jax.tree.map(lambda leaf: leaf[k], state))\n        mu, raw = net(inputs)\n        lv = jax.vmap(self._safe_log_var_i, in_axes=(0, None, None))(raw, self.min_log_var, self.max_log_var)\n        return _Pred(mu, lv)\n\n    def base_predict(self, x, i):"),
+                                                                                                             ("        graphdef, state = nnx.split(self.ensemble)\n        state_i = jax.tree.map(lambda x: x[i], state)\n        base_model = nnx.merge(graphdef, state_i)\n        mean_i, log_var_i = base_model(x)\n        log_var_i = " + _BOUND_CALL_I + "\n        return mean_i, jnp.exp(log_var_i)", "        pred = self._predict_member(x, i)\n        return pred.mu, jnp.exp(pred.lv)")]},
+    {"id": "c17-plans-expand-dims-plan-axis", "file": _P, "rule": "R5", "edits": [("    n_samples, plan_horizon = actions.shape[:2]\n    action_shape = actions.shape[2:]\n", "    n_samples, plan_horizon, *action_shape = actions.shape\n"), ("        actions[:, jnp.newaxis],\n        (n_samples, n_particles, plan_horizon) + action_shape,\n", "        jnp.expand_dims(actions, 0),\n        (n_samples, n_particles, plan_horizon, *action_shape),\n")]},
+    # a sum over the output axis under the overall mean is the element mean times n_outputs
+    {"id": "c17-nll-summed-over-outputs", "file": _E, "rule": "R3", "find": "    return jnp.mean(squared_errors * inv_var) + 0.5 * jnp.mean(log_var_pred)", "replace": "    per_sample = jnp.sum(squared_errors * inv_var + 0.5 * log_var_pred, axis=-1)\n    return jnp.mean(per_sample)"},
 ]
 BENIGN = [
     # the member model is queried with the single input vector itself (the methods handle vectors): same distribution, one sample per dimension
@@ -1445,4 +1586,15 @@ BENIGN = [
                                                                                          ("        # TODO move safe_log_var to nnx.Module\n        def safe_log_var(log_var, min_log_var, max_log_var):\n            log_var = max_log_var - nnx.softplus(max_log_var - log_var)\n            log_var = min_log_var + nnx.softplus(log_var - min_log_var)\n            return log_var\n\n", ""),
                                                                                          ("self._safe_log_var_i", "self._bound_member"), ("self._safe_log_var", "self._bound_ensemble")]},
     {"id": "c17-b-pendulum-components-from-the-end", "file": _R, "edits": [("    theta_dot = obs[..., 2]", "    theta_dot = obs[..., -1]"), ("PENDULUM_MAX_TORQUE)[..., 0]", "PENDULUM_MAX_TORQUE)[..., -1]")]},
+    {"id": "c17-b-bound-as-method-of-object", "file": _E, "all": True, "edits": [(_ALIAS_I, ""), (_ALIAS_E, ""), ("        # TODO move safe_log_var to nnx.Module\n" + _LOCAL_BOUND, ""),
+                                                                                ("    def aggregate(self, x: jnp.ndarray)", "    def _clamp(self, raw):\n        lo = self.min_log_var\n        hi = self.max_log_var\n        upper = hi - nnx.softplus(hi - raw)\n        return lo + nnx.softplus(upper - lo)\n\n    def aggregate(self, x: jnp.ndarray)"),
+                                                                                (_BOUND_CALL_E, "self._clamp(log_vars)"), (_BOUND_CALL_I, "self._clamp(log_var_i)")]},
+    {"id": "c17-b-conditional-truncation", "file": _E, "find": "        remaining = -(bootstrap_indices.shape[1] % batch_size)\n        if remaining:\n            shuffled_indices = shuffled_indices[:, :remaining]\n", "replace": "        tail = bootstrap_indices.shape[1] % batch_size\n        shuffled_indices = shuffled_indices[:, :-tail] if tail else shuffled_indices\n"},
+    {"id": "c17-b-conditional-truncation-named-arms", "file": _E, "find": "        remaining = -(bootstrap_indices.shape[1] % batch_size)\n        if remaining:\n            shuffled_indices = shuffled_indices[:, :remaining]\n", "replace": "        tail = bootstrap_indices.shape[-1] % batch_size\n        whole = shuffled_indices\n        cut = whole[:, : whole.shape[1] - tail]\n        shuffled_indices = whole if tail == 0 else cut\n"},
+    {"id": "c17-b-record-carrier", "file": _E, "nth": 0, "edits": [("class GaussianMLPEnsemble(nnx.Module):\n", "class _Pred(NamedTuple):\n    mu: jnp.ndarray\n    lv: jnp.ndarray\n\n\nclass GaussianMLPEnsemble(nnx.Module):\n"),
+                                                                   ("    def base_predict(self, x, i):", "    def _predict_member(self, inputs, k):\n        graphdef, state = nnx.split(self.ensemble)\n        net = nnx.merge(graphdef, jax.tree.map(lambda leaf: leaf[k], state))\n        mu, raw = net(inputs)\n        return _Pred(lv=self._safe_log_var_i(raw, self.min_log_var, self.max_log_var), mu=mu)\n\n    def base_predict(self, x, i):"),
+                                                                   ("        graphdef, state = nnx.split(self.ensemble)\n        state_i = jax.tree.map(lambda x: x[i], state)\n        base_model = nnx.merge(graphdef, state_i)\n        mean_i, log_var_i = base_model(x)\n        log_var_i = " + _BOUND_CALL_I + "\n        return mean_i, jnp.exp(log_var_i)", "        pred = self._predict_member(x, i)\n        return pred.mu, jnp.exp(pred.lv)"),
+                                                                   ("        graphdef, state = nnx.split(self.ensemble)\n        state_i = jax.tree.map(lambda x: x[i], state)\n        base_model = nnx.merge(graphdef, state_i)\n        mean_i, log_var_i = base_model(x)\n        log_var_i = " + _BOUND_CALL_I + "\n        std_i", "        mean_i, log_var_i = self._predict_member(x, i)\n        std_i")]},
+    {"id": "c17-b-plans-expand-dims-starred", "file": _P, "edits": [("    n_samples, plan_horizon = actions.shape[:2]\n    action_shape = actions.shape[2:]\n", "    n_plans, horizon, *act_dims = actions.shape\n"), ("        actions[:, jnp.newaxis],\n        (n_samples, n_particles, plan_horizon) + action_shape,\n", "        jnp.expand_dims(actions, 1),\n        (n_plans, n_particles, horizon, *act_dims),\n")]},
+    {"id": "c17-b-nll-one-mean", "file": _E, "find": "    return jnp.mean(squared_errors * inv_var) + 0.5 * jnp.mean(log_var_pred)", "replace": "    per_entry = squared_errors * inv_var + 0.5 * log_var_pred\n    return jnp.mean(per_entry)"},
 ]
